@@ -107,6 +107,9 @@ def scripted():
     # a later session on the same file
     H.append(("new_session", [o("iso_to", "d1", "I1", am=True, aa=True), o("session"), o("iso_from", "d1"), o("iso_to", "d1", "I3", am=True, aa=True),
                               o("iso_to", "d1", "I3"), o("iso_to", "d1", "I2", am=True, aa=True), o("iso_to", "d1", "I2", am=True), o("iso_from", "d1")]))
+    H.append(("new_session_retrieve_then_delete", [o("iso_to", "d1", "I1", am=True, aa=True), o("iso_to", "d1", "I4", am=True, aa=True), o("session"),
+                                                   o("iso_from", "d1"), o("iso_del", "d1", "I4", by="retrieved"), o("iso_del", "d1", "I1", by="retrieved"),
+                                                   o("iso_from", "d1")]))
     # references
     H.append(("references", [o("iso_to", "d1", "I1"), o("iso_to", "d1", "I1", am=True), o("iso_to", "d1", "I1", aa=True), o("mats_from", "d1"), o("ads_from", "d1"),
                              o("iso_to", "d1", "I1", am=True, aa=True), o("mat_del", "d1", "M1", by="obj"), o("ads_del", "d1", "A1", by="name"),
